@@ -811,3 +811,25 @@ func instCandidates(c *smt.Ctx, t *smt.Term) []*smt.Term {
 	walk(t)
 	return out
 }
+
+// PrepareAll prepares every obligation under a fresh time budget; an obligation whose preparation runs out of budget
+// stays undecided (never a pass).
+func (r *HarnessResult) PrepareAll(seconds int) {
+	if r.engine == nil {
+		return
+	}
+	deadline := time.Now().Add(time.Duration(seconds) * time.Second)
+	for _, o := range r.Obls {
+		r.engine.C.Deadline = deadline
+		func() {
+			defer func() {
+				if rec := recover(); rec != nil {
+					o.Status = "undecided"
+					o.Output = fmt.Sprintf("preparation failed: %v", rec)
+					o.subs = nil
+				}
+			}()
+			o.Prepare()
+		}()
+	}
+}
